@@ -11,4 +11,16 @@ CHECKS = {
         "text": "Every history of add/remove/remove-species/merge/copy/assign operations up to the depth bound over a 3-species, 2-rule alphabet (with explicit ids that look generated) is executed on the real object; after every transition reactions, ids, species set, both indices, molecule labels and both incidence-matrix forms are compared with a reference model, and a copy taken before the transition is checked to be unaffected and to behave identically. Exhaustive within the bound, which is the small scope in which id-collision and index-bookkeeping defects live.",
         "note": "Alphabet and depth bound as stated in the evidence; state merging keeps every attribute of the object, so merged states have equal futures. The reference model adopts whatever fresh id the implementation returns.",
     },
+    "C17": {
+        "ready": True, "engine": "E1",
+        "technique": "bounded-exhaustive enumeration of all small reaction networks, real stoich code vs. exact rational linear algebra with verified positivity certificates",
+        "text": "Every network with <=2 reactions over 3 species and coefficients {0,1,2} (thorough: all labelled ones, 3 reactions with {0,1}, 4 species) plus textbook families is analysed by the real code; matrix (as a multiset of labelled columns), rank, both kernel bases (dimension, annihilation, independence), semiflows, conservativity/consistency flags, witnesses and summary are compared with exact arithmetic. Positivity is decided only with an exactly verified certificate (positive integer kernel vector or Stiemke alternative), so neither a false 'yes' nor a false 'no' can pass.",
+        "note": "Small-scope: 3-4 species, coefficients <=2. Floating comparisons at 1e-8 relative. Known finding D11 (conservativity false negative when dim ker(S^T)>=2) is matched as an input class, see known_findings.json.",
+    },
+    "C19": {
+        "ready": True, "engine": "E1",
+        "technique": "bounded-exhaustive enumeration of all small reaction networks, DeficiencyAnalyzer vs. first-principles complexes / union-find / reachability / exact rank",
+        "text": "Same network families as C17; for each, complexes, linkage classes, weak reversibility, deficiency, per-class deficiencies and their bounds are recomputed from the definitions and compared with the analyzer run on the hypergraph and on both exported bipartite graphs.",
+        "note": "Small-scope: 3-4 species, <=3 reactions. Linkage-class deficiencies compared as multisets.",
+    },
 }
